@@ -45,6 +45,8 @@ def lu(u):
     def splu(it, mat, **kw):
         calls.append(("splu", mat, kw))
         if it.path.choose("splu raises RuntimeError (singular)"):
+            if len([c for c in calls if c[0] == "splu"]) == 1:
+                it.path.ghost["__splu_failed__"] = True
             raise PyRaise(ExcVal(RuntimeError, ("Factor is exactly singular",)), origin="scipy.sparse.linalg.splu")
         f = Obj(None, {}, tag="SuperLU")
         f.fields["solve"] = PyFunc(lambda it_, rhs, trans="N": (calls.append(("solve", rhs, trans)), _fresh_vec(it_, "x", k))[1], "SuperLU.solve")
@@ -59,6 +61,10 @@ def lu(u):
     skw = calls[0][2] if calls else {}
     thr = skw.get("diag_pivot_thresh")
     u.ensure(set(skw) <= {"permc_spec", "diag_pivot_thresh"} and (thr is None or (isinstance(thr, (int, float)) and thr >= 1.0)), "init:factorisation_called_only_with_options_the_assumed_library_contract_covers", desc=f"splu keywords {sorted(skw)}" + (f", diag_pivot_thresh={thr}" if thr is not None else ""))
+    n_fact = len([c for c in calls if c[0] == "splu"])
+    u.ensure(n_fact == 1, "init:exactly_one_factorisation(of_the_matrix_given)", desc=f"{n_fact} calls of splu")
+    first_failed = bool(u.path.ghost.get("__splu_failed__"))
+    u.ensure((kind == "raise") == first_failed, "init:LinearSolverError_iff_the_factorisation_reports_a_singular_matrix(no_silent_repair)", desc=f"factorisation failed: {first_failed}, constructor: {kind}")
     if kind == "raise":
         u.ensure(val.exc.name() == "LinearSolverError", "init:raises_only{LinearSolverError}", desc=f"escaping {val.exc!r}")
         return
